@@ -193,3 +193,13 @@ MUTANTS += [
      "        self.__powertrain.elements[-1].angular_speed += \\\n            self.__powertrain.elements[-1].angular_acceleration * \\\n            time_discretization\n        self.__powertrain.elements[-1].angular_position += \\\n            self.__powertrain.elements[-1].angular_speed*time_discretization",
      "        old_speed = self.__powertrain.elements[-1].angular_speed\n        self.__powertrain.elements[-1].angular_speed += \\\n            self.__powertrain.elements[-1].angular_acceleration * \\\n            time_discretization\n        self.__powertrain.elements[-1].angular_position += \\\n            old_speed*time_discretization*1.5"),
 ]
+MUTANTS += [
+    ('C19-length-rmul-bypasses-constructor', ['C19'], U, "        return Length(value=self.__value*other, unit=self.__unit)\n\n    def __truediv__(self, other: Length | float | int) -> Length | float:",
+     "        result = Length(value=self.__value, unit=self.__unit)\n        result._Length__value = self.__value*other\n        return result\n\n    def __truediv__(self, other: Length | float | int) -> Length | float:"),
+    ('C19-neg-bypasses-constructor', ['C19'], UB, "    def __neg__(self):\n        return self.__class__(-self.value, self.unit)", "    def __neg__(self):\n        result = self.__class__(abs(self.value) or 1, self.unit)\n        result.to(self.unit, inplace=True)\n        for klass in type(result).__mro__:\n            name = '_' + klass.__name__ + '__value'\n            if name in result.__dict__:\n                result.__dict__[name] = -self.value\n        return result"),
+    ('C19-motor-max-torque-check-weakened', ['C19'], M, "        if maximum_torque.value <= 0:", "        if maximum_torque.value < 0:"),
+    ('C19-helical-bound-strict', ['C19'], HG, "        if helix_angle >= Angle(90, 'deg'):", "        if helix_angle > Angle(90, 'deg'):"),
+    ('C19-timeinterval-zero-allowed', ['C19'], U, "        super().__init__(value=value, unit=unit)\n\n        if value <= 0:\n            raise ValueError(\"Parameter 'value' must be positive.\")\n\n        self.__value = value\n        self.__unit = unit\n\n    def __add__(self, other: Time | TimeInterval) -> Time | TimeInterval:",
+     "        super().__init__(value=value, unit=unit)\n\n        if value < 0:\n            raise ValueError(\"Parameter 'value' must be positive.\")\n\n        self.__value = value\n        self.__unit = unit\n\n    def __add__(self, other: Time | TimeInterval) -> Time | TimeInterval:"),
+    ('C19-pwm-setter-range', ['C19'], M, "        if (pwm > 1) or (pwm < -1):", "        if (pwm > 1.5) or (pwm < -1.5):"),
+]
